@@ -1,5 +1,8 @@
 # Hand-written per-property notes for DESIGN.md (mkdesign.py). Keys: property id -> markdown paragraph(s).
 NOTES = {
+"C38": """The constructors cannot build an error response with `data`, so after a wave-8 seeded change was missed a relay
+phase reads hand-framed messages (calls, notifications, results, errors with and without data) and writes them
+again: the written body must be the same JSON value.""",
 "C01": """Q 60 programs / T 3 000. Every fifth case is a *constant-conversion probe*: one constant expression whose value
 passes through a type conversion (`string(rune(N))`, `int(7.0)/2`, `float64(N)/2`, shifts, …) in one of four contexts.
 They are kept out of the main generator because gogen (pinned dependency, outside /repo) keeps the unconverted
@@ -96,7 +99,10 @@ automatic semicolon).""",
 (`R4:FuncDecl:Ident,FuncType`, `R2:LabeledStmt`). Three AST span defects fixed. The re-parse rule R5 applies to
 context-free slices only: a slice that holds a comment together with a line break is skipped (where semicolons are
 inserted, and whether a bracket literal is read as rows, depends on the nesting the node was parsed at — false alarms
-met in thorough runs).""",
+met in thorough runs). Rule R6 (added after a wave-8 seeded change was missed): every token position a
+node records for itself (Lparen, Ellipsis, TokPos, Arrow …; found by reflection) lies inside the node's span; the two
+fields that record an end (`LambdaExpr.Last`, `CallExpr.NoParenEnd`) may equal End(). Generated command calls now
+sometimes spread their last argument.""",
 "C18": "Synthesised trees populate every child field regardless of token; ast.Walk defect fixed (4a820ab).",
 "C19": """Comment injection belongs to C21's quantifier only and was removed from C19/C20 (false alarm: a comment moved
 across a token is 'comment placement'). Parentheses, empty statements and number spelling are normalised in the
